@@ -146,7 +146,7 @@ def to_expr(v):
     return opaque(None)
 
 
-def trim(shape, depth=10):
+def trim(shape, depth=14):
     if depth <= 0:
         return ("opaque", "deep")
     if shape[0] == "op":
